@@ -41,6 +41,33 @@ def run(ctx):
     for (t, l) in rejected:
         key, what, ev, meta = lz.describe(rows, t, l, "C08")
         vlib.report_violation(ctx, key, what, {"meta": meta, "event": ev, "events_before": rows[t - 1]["ev"][max(0, l - 4):l]})
+    # unusual but well-formed streams: parses with matches reaching into the initial window (spaces and the zero-initialised
+    # lookahead area) coded by the reference codec; Close = nil must mean the canonical decoding was returned
+    jobs2 = ctx.path("jobs2.ndjson")
+    p = vlib.run_harness(ctx, binary, ["lzh-run", "--out", ctx.path("unused.ndjson"), "--jobs", jobs2, "--inputs", ctx.path("in2.ndjson"),
+                                       "--budget", "40000", "--tier", "quick"], timeout=3000)
+    if p.returncode != 0:
+        raise vlib.Undecided("lzh-run failed: rc=%d %s" % (p.returncode, p.stderr[-2000:]))
+    sel = [j for j in vlib.read_ndjson(jobs2) if j["kind"] == "enc" and j["name"].split("/")[0].startswith(("run-nul", "run-sp", "zero60", "period-1"))
+           and j["name"].split("/")[-1] in ("farthest", "random", "nearest")]
+    unusual = 0
+    if sel:
+        vlib.write_ndjson(jobs2, sel)
+        res2, _ = lz.run_batch(ctx, jobs2, "unusual", timeout=3000)
+        rf = ctx.path("res2.ndjson")
+        vlib.write_ndjson(rf, res2)
+        t2 = ctx.path("traces2.ndjson")
+        p = vlib.run_harness(ctx, binary, ["lzh-judge", "--results", rf, "--jobs", jobs2, "--out", t2], timeout=3000)
+        if p.returncode != 0:
+            raise vlib.Undecided("lzh-judge failed: rc=%d %s" % (p.returncode, p.stderr[-2000:]))
+        js = json.loads(p.stdout.strip().splitlines()[-1])
+        unusual = js["encoded"]
+        acc2, rej2, _ = vlib.validate_traces(ctx, lz.SPECDIR, "LzhufStreamTrace", "LzhufStreamTrace.cfg", t2, js["traces"], name="tv-unusual")
+        acc += acc2
+        rows2 = vlib.read_ndjson(t2)
+        for (t, l) in rej2:
+            key, what, ev, meta = lz.describe(rows2, t, l, "C08")
+            vlib.report_violation(ctx, key + "/well-formed-unusual", what, {"meta": meta, "event": ev})
     vlib.write_evidence(ctx, "exploration", {
         "traces_validated_against_impl": acc,
         "evaluations": st["cases"],
@@ -50,5 +77,5 @@ def run(ctx):
                 "read); survivors = cases where Close returned nil, %d of them judged by the reference codec" % st["jobs"],
         "samples": [{k: v for k, v in rows[0].items()}, {k: v for k, v in rows[len(rows) // 2].items() if k != "ev"}],
         "exhaustive": False,
-        "stats": st, "survivors_not_canonical": bad,
+        "stats": st, "survivors_not_canonical": bad, "unusual_wellformed_streams": unusual,
     }, ["TLC as evaluator of Lzhuf.tla for the survivors", "bitwise CRC-16/XMODEM", "read budget declared size + 8 x input length + 64 calls"])
